@@ -50,6 +50,22 @@ def check(ctx, case, reqs, pend):
                 ctx.case(desc)
                 ctx.oracle_fail("%s.%s raised %s: %s" % (kind, func, type(e).__name__, str(e)[:80]), desc, cls="C04-raises")
                 continue
+            if kind == "ccube":
+                # the same aggregate through the other way of building it (the cube's shortcut method with its default
+                # tracing=True / an ffunc object built with tracing=False and handed to calculate) must report the same
+                # missing cells and the same values
+                try:
+                    v2, m2 = A.call(cube, func, dict(case, untraced=not case.get("untraced")), ("pair", 0))
+                    v1, m1 = outs[("pair", 0)]
+                    ctx.hit("ccube_traced_vs_untraced")
+                    if not (np.array_equal(m1, m2) and np.array_equal(v1[~m1], v2[~m2])):
+                        ctx.oracle_fail("ccube.%s: built with tracing=%s the aggregate reports missing cells %s, built with "
+                                        "tracing=%s it reports %s" % (func, not case.get("untraced"), np.argwhere(m1).tolist()[:4],
+                                                                      bool(case.get("untraced")), np.argwhere(m2).tolist()[:4]),
+                                        desc, cls="C04-rule")
+                except Exception as e:
+                    ctx.oracle_fail("ccube.%s (ffunc object, other tracing setting) raised %s: %s" % (func, type(e).__name__, str(e)[:80]),
+                                    desc, cls="C04-raises")
             nan_v, nan_m = outs[("nan", None)]
             ctx.case(desc, nontrivial=bool(nan_m.any()) and not bool(nan_m.all()))
             ctx.hit("%s.%s" % (kind, func))
